@@ -53,12 +53,27 @@ func (s issSpec) String() string {
 	return fmt.Sprintf("IssuerFromForwardedOrHost(%q, WithIssuerFromCustomHeaders(%q)) insecure=%v", s.Path, s.Hdrs, s.Insecure)
 }
 
-// key of the reference an instance with these options is compared with ("" when there is none)
+// key of the reference an instance with these options is compared with ("" when there is none): the references are built
+// with path "" and allowInsecure false; path and scheme of an instance are put onto what the reference derives
 func (s issSpec) refKey() string {
 	if s.Iss == "host" || s.Iss == "fwd" {
-		return fmt.Sprintf("%s|%s|%v", s.Iss, s.Path, s.Insecure)
+		return s.Iss
 	}
 	return ""
+}
+
+// onto renders the issuer a reference (https, no path) derives in the scheme and with the path of spec s.
+func (s issSpec) onto(refIssuer string) string {
+	if s.Iss == "" {
+		return refIssuer
+	}
+	if s.Insecure {
+		refIssuer = "http://" + strings.TrimPrefix(refIssuer, "https://")
+	}
+	if s.Path != "" && !strings.HasPrefix(s.Path, "/") {
+		return refIssuer + "/" + s.Path
+	}
+	return refIssuer + s.Path
 }
 
 // header names an application may hand to WithIssuerFromCustomHeaders, in the spellings it may use
@@ -71,17 +86,20 @@ type issProbe struct {
 	handler bool // also sent to a provider's discovery endpoint (every probe is put to its IssuerFromRequest)
 }
 
+// The first and the last probe name the same host for every instance: whatever an instance keeps from the request it saw
+// last meets the next instance.
 var issuerProbes = []issProbe{
-	{"own-host", "", nil, false},
 	{"other-host", "alt.example.net", nil, true},
+	{"own-host", "", nil, false},
 	{"forwarded", "", http.Header{"Forwarded": {"host=fwd.example.org;proto=https"}}, true},
 	{"x-forwarded-host", "", http.Header{"X-Forwarded-Host": {"host=xfh.example.org"}}, false},
 	{"x-tenant-host", "", http.Header{"X-Tenant-Host": {"host=tenant.example.org"}}, false},
 	{"x-original-host", "", http.Header{"X-Original-Host": {"host=orig.example.org"}}, false},
 	{"forwarded+x-tenant-host", "", http.Header{"Forwarded": {"host=fwd.example.org"}, "X-Tenant-Host": {"host=tenant.example.org"}}, false},
+	{"bare-values", "", http.Header{"Forwarded": {"for=192.0.2.1"}, "X-Forwarded-Host": {"bare.example.org"}}, false}, // no host field anywhere
 	{"all-four", "alt.example.net", http.Header{"Forwarded": {"for=192.0.2.1;host=fwd.example.org"}, "X-Forwarded-Host": {"host=xfh.example.org"},
 		"X-Tenant-Host": {"host=tenant.example.org"}, "X-Original-Host": {"host=orig.example.org"}}, true},
-	{"bare-values", "", http.Header{"Forwarded": {"for=192.0.2.1"}, "X-Forwarded-Host": {"bare.example.org"}}, false}, // no host field anywhere
+	{"other-host-again", "alt.example.net", nil, false},
 }
 
 // hostField is the harness's own reading of a Forwarded-style header value: the host= pair of a ';' separated list.
@@ -195,10 +213,13 @@ func vecDiff(was, now map[string]string) string {
 
 // vecAgainst compares the issuers an instance derives with those expected of its options; the expectation for a request is
 // expressed relative to the instance's own host (references live on another host).
-func vecAgainst(got, want map[string]string, gotHost, wantHost string) string {
+func vecAgainst(s issSpec, got, want map[string]string, gotHost, wantHost string) string {
 	var l []string
 	for _, p := range issuerProbes {
 		w := strings.ReplaceAll(want[p.name], wantHost, gotHost)
+		if wantHost != gotHost {
+			w = s.onto(w) // want comes from a reference
+		}
 		if got[p.name] != w {
 			l = append(l, fmt.Sprintf("request %s: issuer %s, want %s", p.name, got[p.name], w))
 		}
@@ -238,9 +259,9 @@ type ownedList struct {
 // bornCheck: an instance built just now derives its issuer as its own options say.
 func (e *orderEnv) bornCheck(s issSpec, vec map[string]string, host string) string {
 	if ref, ok := e.refs[s.refKey()]; ok && s.refKey() != "" {
-		return vecAgainst(vec, ref.vec, host, ref.host)
+		return vecAgainst(s, vec, ref.vec, host, ref.host)
 	}
-	return vecAgainst(vec, modelVec(s, host), host, host)
+	return vecAgainst(s, vec, modelVec(s, host), host, host)
 }
 
 // ---- generation ----------------------------------------------------------------------------------------
@@ -342,6 +363,42 @@ func refusalLine(r *vkit.Resp) string {
 		return fmt.Sprintf("%d", r.Status)
 	}
 	return fmt.Sprintf("%d %s", r.Status, strings.TrimSpace(string(r.Body)))
+}
+
+// bornLike: a provider built just now answers like provider 0 (built with defaults before anything else) wherever its own
+// options do not say otherwise: CORS policy (own CORS option absent, same router), key set (same key), the refusals of bad
+// requests (Provider router; not while the known defect has moved the package's default endpoints, which decides where
+// those requests go).
+func (e *orderEnv) bornLike(p *provInst, s Step, epDirty bool) string {
+	p0 := e.provs[0]
+	if p == p0 {
+		return ""
+	}
+	var l []string
+	for k, was := range p0.other0 {
+		switch {
+		case strings.HasPrefix(k, "cors-"):
+			if s.CORS != 0 || p.router != p0.router {
+				continue
+			}
+		case k == "keys":
+			if epDirty || len(s.EP) > 0 || s.Bulk {
+				continue
+			}
+		case strings.HasPrefix(k, "token:") || strings.HasPrefix(k, "authorize:") || strings.HasPrefix(k, "userinfo:"):
+			if p.router != p0.router || epDirty || len(s.EP) > 0 || s.Bulk {
+				continue
+			}
+		default:
+			continue
+		}
+		want := strings.ReplaceAll(was, hostOf(p0.issuer), hostOf(p.issuer))
+		if got := p.other[k]; got != want {
+			l = append(l, fmt.Sprintf("%s: %q, provider 0 answered %q when it was built", k, got, want))
+		}
+	}
+	sort.Strings(l)
+	return strings.Join(l, "; ")
 }
 
 func mapDiff(was, now map[string]string) string {
